@@ -3,7 +3,7 @@
 From Coq Require Import List Arith NArith Bool Lia.
 Import ListNotations.
 Require Import MRB.Base.Ring MRB.Base.ListAux MRB.Model.Types MRB.Model.Seq MRB.Spec.Pipe.
-Require Import MRB.Proofs.Rel MRB.Proofs.TapeFacts MRB.Proofs.Refine MRB.Proofs.SpecFacts MRB.Props.Examples.
+Require Import MRB.Proofs.Rel MRB.Proofs.TapeFacts MRB.Proofs.Refine MRB.Proofs.SpecFacts MRB.Proofs.SliceItem MRB.Props.Examples.
 
 Theorem C06_chunk :
   forall len ix n : nat, ix < len -> n <= len - 1 -> let '(h, t) := chunk len ix n in h + t = n /\ ix + h <= len /\ t <= ix /\ (t > 0 -> ix + h = len) /\ (forall k : nat, k < n -> wadd len ix k = (if PeanoNat.Nat.ltb k h then ix + k else k - h)).
@@ -24,4 +24,16 @@ Theorem C06_slice_write :
   forall (m : Seq.mstate) (a : Pipe.pipe) (p : nat) (vs : list BinNums.N), Rel.Rel m a -> Types.tC (Pipe.ppos a) <= p -> p + length vs <= Types.tC (Pipe.ppos a) + Pipe.slen a -> forall q : nat, Types.tC (Pipe.ppos a) <= q < Types.tC (Pipe.ppos a) + Pipe.slen a -> List.nth (PeanoNat.Nat.modulo q (Pipe.slen a)) (Seq.slots (Seq.wr m (PeanoNat.Nat.modulo p (Pipe.slen a)) vs)) BinNums.N0 = List.nth q (ListAux.write (Pipe.tape a) p vs) BinNums.N0.
 Proof. exact Refine.wr_cont. Qed.
 Print Assumptions C06_slice_write.
+
+(** slice-wise and item-wise operations are interchangeable: identical Spec states (tape, positions) and values *)
+Theorem C06_push_slice_eq_items :
+  forall (vs : list BinNums.N) (a : Pipe.pipe), Pipe.a_attached Types.P a = true -> Pipe.sowned a = false -> length vs <= Pipe.a_avail Types.P a -> Types.tP (Pipe.lpos a) = Types.tP (Pipe.ppos a) -> fst (Pipe.sstep a (Types.PushSlice vs)) = push_each a vs.
+Proof. exact SliceItem.push_slice_eq_items. Qed.
+Print Assumptions C06_push_slice_eq_items.
+
+(** slice-wise and item-wise operations are interchangeable: identical Spec states (tape, positions) and values *)
+Theorem C06_copy_slice_eq_items :
+  forall (n : nat) (a : Pipe.pipe), Pipe.a_attached Types.C a = true -> Pipe.sowned a = false -> n <= Pipe.a_avail Types.C a -> length (Pipe.tape a) = Types.tC (Pipe.ppos a) + Pipe.slen a -> Types.tC (Pipe.lpos a) = Types.tC (Pipe.ppos a) -> Types.tC (Pipe.lpos a) + n <= length (Pipe.tape a) -> fst (Pipe.sstep a (Types.CopySlice n)) = fst (copy_each a n) /\ fst (snd (Pipe.sstep a (Types.CopySlice n))) = Types.ODst (snd (copy_each a n)).
+Proof. exact SliceItem.copy_slice_eq_items. Qed.
+Print Assumptions C06_copy_slice_eq_items.
 
